@@ -355,15 +355,15 @@ theorem mem_cells (t : SegType) (segs ord : List Nat) (c : Option Nat × Nat) :
 /-- **stored frames are exactly the comprehension** over segments (outer) x visited planes (inner),
     minus the empty single-segment frames when empty frames are omitted -/
 theorem storedFrames_eq (arr : Mask) (segs : List Nat) (t : SegType) (mfv : Nat) (omt : Bool) (order : List Nat)
-    (hcell : ∀ c ∈ cells t segs (planOrder arr omt order).2, ∃ px, cellE arr segs t mfv c.1 c.2 = .ok px) :
+    (hcell : ∀ c ∈ cells t segs (planOrder arr mfv omt order).2, ∃ px, cellE arr segs t mfv c.1 c.2 = .ok px) :
     storedFrames arr segs t mfv omt order =
-      .ok ((cells t segs (planOrder arr omt order).2).filterMap
-            (cellFrame arr segs t mfv (planOrder arr omt order).1)) := by
+      .ok ((cells t segs (planOrder arr mfv omt order).2).filterMap
+            (cellFrame arr segs t mfv (planOrder arr mfv omt order).1)) := by
   unfold storedFrames
   simp only []
-  have hm : mapE (fun c => loopBody arr segs t mfv (planOrder arr omt order).1 c.1 c.2)
-      (cells t segs (planOrder arr omt order).2)
-      = .ok ((cells t segs (planOrder arr omt order).2).map (cellFrame arr segs t mfv (planOrder arr omt order).1)) := by
+  have hm : mapE (fun c => loopBody arr segs t mfv (planOrder arr mfv omt order).1 c.1 c.2)
+      (cells t segs (planOrder arr mfv omt order).2)
+      = .ok ((cells t segs (planOrder arr mfv omt order).2).map (cellFrame arr segs t mfv (planOrder arr mfv omt order).1)) := by
     apply mapE_ok_of_forall
     intro c hc
     obtain ⟨px, hpx⟩ := hcell c hc
